@@ -367,6 +367,43 @@ CLAIMS = {
              'arrays with symbolic entries.  Not decided: arrays of '
              'callables (tensor-valued sampling), larger shapes than the '
              'small concrete ones, rounding.'),
+    'C02': dict(
+        cat='proof', ref='DESIGN.md section 2, C02',
+        tech='symbolic interpretation of the weighting classes, their '
+             'helper pipelines, the base-class defaults and '
+             'DiscretizedSpace._inner/_norm/_dist on small arrays with '
+             'symbolic real / complex entries, weights and boundary '
+             'fractions (NumPy shape semantics delegated to NumPy on object '
+             'arrays); positivity-aware normal forms for |.|, roots and max;'
+             ' equality of non-negative expressions by powers, refuted '
+             'early at numeric witness points; value-capturing '
+             'interpretation of forwarders and defaults',
+        text='For exponents 2, 1, inf, 3 and 3/2, real and complex data, '
+             '1-d and 2-d C-/F-ordered arrays, the BLAS and tensordot size '
+             'arms, constant and per-entry weights: inner, norm and dist of '
+             'the tensor-space and product-space weighting classes equal '
+             'the documented weighted sums / p-norms as identities in all '
+             'entries and weights; inner is conjugate-symmetric and linear '
+             'in its first argument, norm is absolutely homogeneous and '
+             'equals sqrt(inner) for p = 2, dist equals norm of the '
+             'difference and is symmetric; inner is refused for p != 2 and '
+             'non-positive constants / exponents are rejected.  On '
+             'discretized spaces every boundary sample enters with its cell'
+             ' fraction (corner cells with the product, for every finite p '
+             'with the 1/p root, both operands of dist alike, operands '
+             'unmodified), boundary_cell_fractions sums to the extent of '
+             'the domain, and with the default cell-volume weighting of '
+             'uniform_discr_frompartition the constant one has squared norm '
+             'equal to the domain volume.  Space-level _inner/_norm/_dist '
+             'and LinearSpace.inner/norm/dist forward their arguments in '
+             'order.',
+        note='Trusted: ' + TB + '; np.linalg.norm / dot / vdot / tensordot /'
+             ' nrm2 by their definitions; positivity of weights and '
+             'fractions.  Inequalities (positivity, Cauchy-Schwarz, '
+             'triangle) follow from the verified closed form and are not '
+             're-proved; custom callables and MatrixWeighting are not '
+             'covered; floating-point agreement of BLAS and NumPy is not '
+             'decided.'),
 }
 
 NOT_YET = 'check not implemented yet in this commit (DESIGN.md section 6 build order)'
